@@ -327,10 +327,9 @@ func getMetricValue(
 	case apiCallCount:
 		return 1, nil
 	case apiCallSize:
-		if apiStream.GetType().IsRequestType() {
-			return float64(apiStream.GetRequest().GetSize()), nil
-		}
-		return float64(apiStream.GetResponse().GetSize()), nil
+		// the size of the response when there is one, else of the request: after an early
+		// response the stream is handled as a response although no response object exists
+		return float64(apiStream.GetSize()), nil
 	}
 
 	object := stream.AsObject(apiStream)
